@@ -264,10 +264,54 @@ let c18 line =
         out := body :: !out) ops;
   String.concat " " (List.rev !out)
 
+(* c18coq: the same case as a Gallina equation `run_from L ops = obs` (guards extraction and this driver's parser) *)
+let c18coq line =
+  let lim = int_of_string (field_d line "lim" "1") in
+  let tr = int_of_string (field_d line "tr" "3000") and to_ = int_of_string (field_d line "to" "3000") in
+  let conns = Array.of_list (split ',' (field_d line "conns" "")) in
+  let oracle = split ',' (field_d line "oracle" "") in
+  let script k =
+    let key = Printf.sprintf "hs%d=" k in
+    match List.find_opt (starts_with key) oracle with
+    | None -> []
+    | Some e -> List.map (function 'P' -> HPending | 'D' -> HDone | 'F' -> HFailed N0 | _ -> HFailed (n_of_int 99))
+                  (chars (after key e)) in
+  let ops = List.concat (List.mapi (fun idx tok ->
+      let kind = tok.[0] and arg = String.sub tok 1 (String.length tok - 1) in
+      let k = try int_of_string arg with _ -> 0 in
+      match kind with
+      | 'R' -> [PollReady (nat_of_int idx)]
+      | 'C' -> [Call (nat_of_int k, script k, n_of_int (if conns.(k).[0] = 'r' then tr else to_))]
+      | 'P' -> [PollFut (nat_of_int k, nat_of_int idx)]
+      | 'D' -> [DropFut (nat_of_int k)]
+      | 'A' -> [Advance (n_of_int k)]
+      | _ -> []) (split '.' (field_d line "ops" ""))) in
+  let nat n = Printf.sprintf "%d%%nat" (int_of_nat n) and nn n = Printf.sprintf "%d%%N" (int_of_n n) in
+  let ans = function HPending -> "HPending" | HDone -> "HDone" | HFailed e -> Printf.sprintf "(HFailed %s)" (nn e) in
+  let lst f l = "[" ^ String.concat "; " (List.map f l) ^ "]" in
+  let show_op = function
+    | PollReady w -> Printf.sprintf "PollReady %s" (nat w)
+    | Call (id, sc, t) -> Printf.sprintf "Call %s %s %s" (nat id) (lst ans sc) (nn t)
+    | PollFut (id, w) -> Printf.sprintf "PollFut %s %s" (nat id) (nat w)
+    | DropFut id -> Printf.sprintf "DropFut %s" (nat id)
+    | Advance d -> Printf.sprintf "Advance %s" (nn d) in
+  let out = function OOk -> "OOk" | OTls e -> Printf.sprintf "(OTls %s)" (nn e) | OTimeout -> "OTimeout" in
+  let show_obs = function
+    | ObsReady b -> Printf.sprintf "ObsReady %s" (if b then "true" else "false")
+    | ObsParked w -> Printf.sprintf "ObsParked %s" (nat w)
+    | ObsCalled (id, d) -> Printf.sprintf "ObsCalled %s %s" (nat id) (nn d)
+    | ObsHs (id, a) -> Printf.sprintf "ObsHs %s %s" (nat id) (ans a)
+    | ObsTimerReg (id, w, d) -> Printf.sprintf "ObsTimerReg %s %s %s" (nat id) (nat w) (nn d)
+    | ObsPoll (id, Pending) -> Printf.sprintf "ObsPoll %s Pending" (nat id)
+    | ObsPoll (id, Ready o) -> Printf.sprintf "ObsPoll %s (Ready %s)" (nat id) (out o)
+    | ObsMisuse id -> Printf.sprintf "ObsMisuse %s" (nat id)
+    | ObsWake w -> Printf.sprintf "ObsWake %s" (nat w) in
+  Printf.sprintf "run_from %s %s ### %s" (nn (n_of_int lim)) (lst show_op ops) (lst (lst show_obs) (run_from (n_of_int lim) ops))
+
 let () =
   let f = match Sys.argv.(1) with
     | "c19host" -> c19host | "c19info" -> c19info | "c19conn" -> c19conn | "c19tls" -> c19tls
-    | "c18" -> c18
+    | "c18" -> c18 | "c18coq" -> c18coq
     | m -> failwith ("unknown mode " ^ m) in
   try while true do
     let line = input_line stdin in
